@@ -76,7 +76,9 @@ func (ex *Exec) VerifyFunc(ct *Contract, fn *ssa.Function) *FnReport {
 	}
 	pre := func(cls []*Clause, kind string) {
 		for _, cl := range cls {
-			if !cl.HasTag(ex.prop) {
+			// a precondition is assumed at entry whatever its tags (tags only say which properties' checks
+			// answer for it at call sites); domain assumptions are per property
+			if kind != "requires" && !cl.HasTag(ex.prop) {
 				continue
 			}
 			ctx := fr.evalCtx(st, nil)
